@@ -68,6 +68,7 @@ def modifier_thermal_cases(tier):
 
 
 def cases(tier):
+    yield from oc.enum_examples(tier)  # slowest first
     yield from modifier_thermal_cases(tier)
     yield from oc.enum_special(tier)
     yield from oc.enum_S1(tier)
@@ -133,7 +134,7 @@ def run(ctx):
     evals = 0
     entries = 0
     nontriv = 0
-    for n, viols, ent in ctx.pmap(run_case, uniq, chunksize=16):
+    for n, viols, ent in ctx.pmap(run_case, uniq, chunksize=1 if len(uniq) < 200 else 4):
         evals += n
         entries += ent
         nontriv += int(ent > 0)
